@@ -39,11 +39,35 @@ def catchVT {α} (x : R α) : R α := catchExc [.typeError, .valueError] x
 
 /-! ### Python primitives -/
 
-/-- `int(s)` for a string: ValueError when `s` is not an integer literal -/
+/-- CPython's integer string conversion length limitation (sys.int_info.default_max_str_digits) -/
+def maxStrDigits : Nat := 4300
+
+def digitCount (s : Str) : Nat := (s.filter (fun c => (pyDigit c).isSome)).length
+
+/-- `int(s)` base 10 with the length limitation: a literal with more than 4300 digits is rejected
+    (ValueError) -/
+def pyIntLim (s : Str) : Option Int :=
+  if digitCount s > maxStrDigits then none else pyInt s
+
+/-- `int(s)` for a string: ValueError when `s` is not an integer literal (or too long) -/
 def pyIntE (s : Str) : R Int :=
-  match pyInt s with
+  match pyIntLim s with
   | some v => .ok v
   | none => .error .valueError
+
+/-- first half of `unpack_numeric`: hexadecimal (`int(data, 16)`: no length limitation for a
+    power-of-two base), `int(data)`, `float(data)`; otherwise CIMXMLParseError -/
+def parseNumL (C : DecCodec) (data : Str) : R Num :=
+  let d := strip data
+  match cimxmlHex d with
+  | some v => .ok (.int v)
+  | none =>
+    match pyIntLim d with
+    | some v => .ok (.int v)
+    | none =>
+      match C.parseFloat d with
+      | some b => .ok (.float b)
+      | none => perr
 
 /-- `type in ALL_CIMTYPES` (set regenerated from pywbem/_cim_obj.py on every run) -/
 def isCimType (ty : Str) : Bool := Pywbem.Generated.Rsp.allCimTypes.any (fun t => t.toList == ty)
@@ -100,7 +124,7 @@ def numCtor (C : DecCodec) (t : NumTy) (n : Num) : R Atom :=
 /-- mirrors pywbem/_tupleparse.py: TupleParser.unpack_numeric (after the fix: OverflowError is caught
     together with ValueError) -/
 def unpackNumeric (C : DecCodec) (data : Str) (cimtype : Option Str) : R Atom := do
-  let n ← parseNum C data
+  let n ← parseNumL C data
   match cimtype with
   | none => match n with
     | .int v => pure (.pyint v)
